@@ -174,7 +174,7 @@ type Entry struct {
 	Version int16
 	Req     protocol.Message
 	Time    time.Time
-	First   bool // first request on its connection (the ApiVersions handshake of a Transport connection)
+	First   bool   // first request on its connection (the ApiVersions handshake of a Transport connection)
 	Addr    string // the address that was dialled for the connection the request arrived on
 }
 
@@ -189,6 +189,7 @@ type Cluster struct {
 	CoordErr   map[string]int16 // FindCoordinator error per key
 	Committed  map[string]map[string]map[int32]Committed
 	CommitErr  map[string]map[int32]int16 // topic → partition → error answered by OffsetCommit / OffsetFetch
+	GroupErr   map[string]int16           // group → error the coordinator answers OffsetFetch with (top level and on every partition)
 	// AutoCreate: a metadata request with AllowAutoTopicCreation creates unknown topics (1 partition on the controller)
 	AutoCreate bool
 
@@ -203,7 +204,7 @@ type Cluster struct {
 	journal    []Entry
 	connSeq    int
 	metaServed int
-	lastMeta   *metadata.Response // last full (unfiltered request) metadata answer
+	lastMeta   *metadata.Response // last answer to a refresh of the transport (all topics, or its configured MetadataTopics)
 	conns      map[int]connInfo
 }
 
@@ -222,6 +223,7 @@ func New() *Cluster {
 		CoordErr:   map[string]int16{},
 		Committed:  map[string]map[string]map[int32]Committed{},
 		CommitErr:  map[string]map[int32]int16{},
+		GroupErr:   map[string]int16{},
 		conns:      map[int]connInfo{},
 	}
 }
@@ -519,7 +521,7 @@ func (c *Cluster) handle(broker int32, ver int16, msg protocol.Message) protocol
 		}
 		res := c.MetadataAnswer(append([]string{}, m.TopicNames...), all)
 		c.metaServed++
-		if all {
+		if all || !m.AllowAutoTopicCreation { // the transport's own refresh (never auto-creating): its answer is the cache
 			c.lastMeta = res
 		}
 		return res
@@ -552,6 +554,10 @@ func (c *Cluster) handle(broker int32, ver int16, msg protocol.Message) protocol
 		if notCoord {
 			res.ErrorCode = 16
 		}
+		groupErr := c.GroupErr[m.GroupID]
+		if groupErr != 0 && !notCoord {
+			res.ErrorCode = groupErr
+		}
 		topics := m.Topics
 		if topics == nil { // all committed topics of the group
 			names := []string{}
@@ -575,6 +581,8 @@ func (c *Cluster) handle(broker int32, ver int16, msg protocol.Message) protocol
 				switch {
 				case notCoord:
 					rp.ErrorCode = 16
+				case groupErr != 0:
+					rp.ErrorCode = groupErr
 				case c.CommitErr[t.Name][p] != 0:
 					rp.ErrorCode = c.CommitErr[t.Name][p]
 				default:
